@@ -34,7 +34,11 @@ MANIFEST = {
             "against what it generated). Hypotheses visible in the statements: layout invariant Inv (names distinct, "
             "object under its own type / id, id prefix = type); tyid_wf (type / id filter values are strings / lists of "
             "strings) only for the variant OptAnyValue of the code before fix 4d5628c -- none for the code as it is now; "
-            "no_fuzzy_dups (no two filters differing only in the spelling of a number) for the FilterSet theorems. "
+            "wfv (values are Python values: a dict has each key once) for the FilterSet theorems -- == on values is "
+            "proved an equivalence and every operator a congruence for it. Filter timestamp strings: parse_ts is proved "
+            "to agree with C15's strict reader (Spec/TimestampSpec.v) and with C15's model of strptime (Model/Timestamp.v). "
+            "The model tree is arranged in the os.listdir order the worker observed, so most filesystem-route answers are "
+            "compared in order and with their exact exception class. "
             "Variants detected at run time: ts_mode (TextOnDicts = known finding C12-dict-timestamp-text), opt_mode.",
     "technique": "Coq proof over a hand-written model + correspondence run + reference-evaluation oracle",
 }
